@@ -31,6 +31,10 @@ class LazySeq(SymSeq):
     def _init(self, name, length, kind):
         SymSeq.__init__(self, name, length, ('any',), kind)
 
+    def __iter__(self):
+        # a Python-level iteration (e.g. `[*a, x]` building a concrete list) has no symbolic meaning
+        raise Unsupported(f'iteration over the symbolic sequence {self.name}')
+
 
 class EnumSeq(LazySeq):
     __slots__ = ('base', 'start')
